@@ -30,6 +30,7 @@ Hub::reset()
     for (bool& b : refuse_open)
         b = false;
     opens_refused = 0;
+    slow_appends = 0;
 }
 
 static Instance*
@@ -388,8 +389,18 @@ st_append(Storage* s, const VideoFrame* frames, size_t* nbytes)
     }
     const StoreScript& sc = hub.store_script[i->idx];
     int a = i->appends_in_run++;
-    if (sc.delay_ms > 0)
+    if (sc.delay_ms > 0) {
+        // a slow writer works on the packet in place (zero copy): it must not change under it
+        std::vector<uint8_t> before((const uint8_t*)frames, (const uint8_t*)frames + *nbytes);
         clock_sleep_ms(nullptr, sc.delay_ms);
+        if (hub.c && !hub.c->ended && memcmp(before.data(), frames, *nbytes) != 0) {
+            size_t k = 0;
+            while (k < *nbytes && before[k] == ((const uint8_t*)frames)[k])
+                ++k;
+            hub.c->fail_soft("C02", "mapped-region-modified", "storage", "vstore%d: byte %zu of the %zu-byte packet changed while the storage device was inside append", i->idx, k, *nbytes);
+        }
+        hub.slow_appends++;
+    }
     if (sc.fail_at >= 0 && sc.fail_at == a) {
         i->failed_in_run = true;
         i->started = false; // the device left the running state on its own
